@@ -63,10 +63,11 @@ RECURSIVE SumWrote(_, _)
 SumWrote(ev, j) == IF j = 0 THEN 0 ELSE WroteFor(ev[j]) + SumWrote(ev, j - 1)
 
 (* index of the j-th request frame *)
-ReqFrames == {i \in DOMAIN frames : frames[i].k = "T"}
-ReqIdx(j) == IF \E i \in ReqFrames : Cardinality({x \in ReqFrames : x <= i}) = j
-             THEN CHOOSE i \in ReqFrames : Cardinality({x \in ReqFrames : x <= i}) = j
-             ELSE 0
+RECURSIVE ReqFrom(_, _)
+ReqFrom(i, j) == IF i > Len(frames) THEN 0
+                 ELSE IF frames[i].k = "T" THEN (IF j = 1 THEN i ELSE ReqFrom(i + 1, j - 1))
+                 ELSE ReqFrom(i + 1, j)
+ReqIdx(j) == ReqFrom(1, j)
 
 (* the frame a byte offset falls strictly inside of, or 0 *)
 InsideFrame(d) == IF \E i \in DOMAIN frames : Start(i) < d /\ d < End(i)
@@ -75,12 +76,14 @@ InsideFrame(d) == IF \E i \in DOMAIN frames : Start(i) < d /\ d < End(i)
 World ==
   LET e == Log[l] IN
   /\ e.op = "world"
-  /\ frames' = e.frames
+  /\ frames' = WithStarts(e.frames)
   /\ delivered' = 0 /\ consumed' = 0 /\ events' = <<>> /\ asked' = TRUE /\ dead' = FALSE
-  /\ cur' = e /\ ndisp' = 0
+  /\ cur' = [run |-> e.run, sess |-> e.sess, cls |-> e.cls, src |-> e.src, segs |-> e.segs, base |-> e.base,
+             ref |-> e.ref, refd |-> e.refd, referr |-> e.referr]      \* (the frames live in `frames`)
+  /\ ndisp' = 0
   /\ UNCHANGED <<first, okSess>>
   /\ stuck' = IF e.refd # e.total THEN stuck \cup {e.sess} ELSE stuck
-  /\ IF TotalOf(e.frames) # e.total
+  /\ IF TotalOf(WithStarts(e.frames)) # e.total
        THEN Report("DRIFT", e, "bookkeeping", "frames", "frame lengths do not add up to the stream length") /\ bad' = TRUE
      ELSE IF ~e.refstable \/ e.reftimeout
        THEN Report("DRIFT", e, "reference", "world", "the unsegmented run is not reproducible or did not return") /\ bad' = TRUE
